@@ -57,6 +57,15 @@ CHECKS = {
  "C17": ("panic-site obligations over the functions reachable from outside-controlled entry points: explicit panics vs ValidateBasic accept condition (unsatisfiability), Must* call-site preconditions, nil-dereference of wire pointers with preconditions propagated to call sites, constant-index/slice bounds vs dominating length facts, library preconditions",
          "Every panic site (explicit, Must*, nil-deref of nillable wire pointers / generated getter results / query requests, constant index and slice bounds, cipher.NewCTR / pbkdf2.Key / regexp.MustCompile preconditions) in hand-written code reachable from ValidateBasic/GetSigners/GetSignBytes, message and query handlers, the key store, block hooks and the DID codec callbacks has a discharged obligation.",
          "Trusts the SDK, gogoproto Unmarshal (no nil elements), Go runtime; variable-index bounds inside compkey loops are covered by C18's linear-normal-form clauses; resource exhaustion not decided."),
+ "C09": ("source-to-sink value-flow of non-deterministic sources over the consensus-reachable scope + order-sensitivity classification of map-range bodies + provenance of stored timestamps",
+         "In the module code reachable from consensus entry points no wall-clock/random/environment/channel/float/%p value flows into a store write, event, response, error or branch (logger/telemetry uses ignored; positive control outside the scope); no goroutine/select; every range over a map has an order-insensitive body; stored timestamps are ctx.BlockTime().",
+         "Trusts determinism of SDK/IAVL/gogoproto/stdlib; app-hash equality itself is not decided."),
+ "C10": ("no-hidden-state-channel analysis: enumeration of writes/reads of package-level variables and fields of long-lived module structs over the consensus-reachable scope + configuration evaluation of store keys",
+         "No memory outside the KV stores (module globals, keeper/msg-server/app-module fields incl. reference-typed fields of by-value receivers) is both written and read by block-processing code; every store key a keeper opens a store with is created and mounted; the whole key map is mounted and LoadLatestVersion is called; no file/network I/O in scope. This is the structural necessary condition for restart equivalence on the repository's side.",
+         "Trusts baseapp/rootmulti/IAVL for the actual stop/restart behaviour and crash points."),
+ "C20": ("lock-set analysis of the key store (re-entrancy, deferred release, files-under-lock precondition) + definite-edge reachability from query handlers to store mutators + synchronisation check of every post-init write to shared memory + query-reads-process-memory channel analysis + append-on-shared-slice rule",
+         "Key store: no mutex re-acquired while held, deferred unlocks, directory access only under the lock; queries reach no store mutator and take their context from their own parameter; every post-init write to module globals / long-lived struct fields is under an exclusive mutex, atomic or sync.Map, locations written under a mutex are read under it, and no location written by block processing or queries is read by a query; appends onto package-level slices only on never-reassigned literals.",
+         "Trusts baseapp's height-bound query contexts and sync primitives; no schedule is explored, no race detector is run."),
 }
 
 PENDING_REASON = "check not built yet in this round (planned per DESIGN.md section 4); no claim is made until the checker rule exists"
